@@ -25,7 +25,7 @@ Print Assumptions extract_failure_confined.
 (* The engine's own contract fails for panics: Extract is called without recover, so a panicking extractor
    takes the whole scan down (this is why the property's first sentence is the one that matters). *)
 Theorem engine_propagates_panic : forall c p n k sz d ff e st,
-  c_extract c e p = XPanic -> c_exts c = [e] -> c_required c e p = true -> kind_accepted c k = true ->
+  c_extract c e p = XPanic -> c_exts c = [e] -> req c e p sz ff = true -> kind_accepted c k = true ->
   c_gitignore c = false -> no_limits c = true -> ff_clean ff = true -> (c_max_size c <= 0)%Z ->
   exists st', handle_file c p (File n k sz d ff) false st = WPanic st' PcExtract.
 Proof. exact engine_propagates_panic_lemma. Qed.
